@@ -65,6 +65,14 @@ func Start(id, tier, level string) *Run {
 		os.Exit(2)
 	}
 	r := &Run{ID: id, Tier: tier, Seed: seed, Level: level, start: time.Now(), failures: map[string][]Failure{}}
+	if os.Getenv("VERIF_BFS_WORKER") == "" {
+		// replay files of earlier runs of this check are stale
+		if old, err := filepath.Glob(filepath.Join(Root, "replays", id+"-*.json")); err == nil {
+			for _, f := range old {
+				os.Remove(f)
+			}
+		}
+	}
 	return r
 }
 
